@@ -161,6 +161,7 @@ shim_mkaddrs(int n, const int * ports)
 
 void shim_freeaddrs(void * p) { sock_addr_freelist(p); }
 int shim_events_run(void) { return (events_run()); }
+void shim_events_interrupt(void) { events_interrupt(); }
 void *
 shim_timer_register(int (*f)(void *), void * c, long sec, long usec)
 {
